@@ -2,8 +2,9 @@ import numpy as np
 
 
 def get_sig_freq_range(asig, ratio=15):
-    indices = get_sig_array_indexes_range(asig.smooth_fa_spectrum, ratio=ratio)
-    return np.take(asig.smooth_fa_frequencies, indices)
+    fas1_smooth = np.asarray(asig.smooth_fa_spectrum)
+    freqs_above = np.asarray(asig.smooth_fa_frequencies)[fas1_smooth > max(fas1_smooth) / ratio]
+    return np.array([np.min(freqs_above), np.max(freqs_above)])  # the smoothing frequencies need not be ascending
 
 
 def get_sig_array_indexes_range(fas1_smooth, ratio=15):
